@@ -48,6 +48,6 @@ LEVEL = ('proof',
  '/ type alias chains} to reference depth 2 (thorough: 3; deepened after seeded change C15_1) × {array length, enum discriminant, comptime argument} × '
  '{in main, inside a generic instantiation} × {with / without File-typed decoy locals}, plus random chains to depth 5 — '
  'compared with the model (diagnostic kinds, accepted value, panic, hang) and with an oracle written from the README '
- 'rule (accepted ⇒ const by the rule and equal to the denoted value; non-const ⇒ reported).',
+ 'rule (accepted ⇒ const by the rule and equal to the denoted value; non-const ⇒ reported); plus a stream of programs built by the real CLI in which the walk reaches the same global twice without a cycle (constant arrays whose items share a constant, chains crossing an import alias twice, in all three positions).',
  '§4 C15',
  'Lean 4 proof (induction on the worklist fuel, on the rule and on the evaluator) + differential correspondence on the real crate')
